@@ -356,6 +356,11 @@ def run(ctx):
                                      "implementation side: the depth-1 grid from two base states for all (Fs, channels, application) "
                                      "exhaustively, deeper histories sampled")
 
+    ctx.notes["DurationHonoured"] = ("exact clause, no calibrated threshold: packet samples (Framing!Parse and opus_packet_get_nb_samples) = "
+                                     "FrameSizeSelect(buffer length, OPUS_GET_EXPERT_FRAME_DURATION, Fs) for opus_encode / opus_encode24 / "
+                                     "opus_encode_float and the multistream / projection counterparts (first stream's packet; not with DTX on); "
+                                     "a buffer shorter than the requested duration must not yield a packet (the error code OPUS_BAD_ARG is bound "
+                                     "as SPEC-DRIFT); FrameSizeSelect = transcription of frame_size_select() on the whole grid (EncCtlFsel_mc)")
     ctx.notes["obligation_antecedents"] = dict(zip(CNT_NAMES, counts_sum))
     ctx.notes["events"] = stats
     # vacuity guard: every obligation must have been exercised with a true antecedent
